@@ -786,6 +786,103 @@ theorem goodInv_reach {v : Variant} {s t : St} (hg : GoodInv s) (h : Reach v s t
   | refl => exact hg
   | tail l _ hs ih => exact goodInv_step ih hs
 
+/-! ### a renewal that succeeded is always installed -/
+
+/-- pcs at which the Run goroutine rests until the environment acts (timer, ctx, or it has returned). -/
+def RunPc.atRest : RunPc → Bool
+  | .idle | .rotWait | .retErr | .stopped => true
+  | _ => false
+
+/-- As long as the Run goroutine is not at rest, some goroutine can step (repaired code). -/
+theorem run_progress_step (ok : Bool) {s : St} (hb : BaseInv s) (hf : FixedInv s) (hnr : s.run.atRest = false) :
+    ∃ l t, l.internal ok = true ∧ step .fixed s l = some t ∧ total t < total s := by
+  by_cases hfree : s.run.free = true
+  · obtain ⟨t, ht, hlt⟩ := run_progress (v := .fixed) hb hfree
+    exact ⟨.run, t, rfl, ht, hlt⟩
+  by_cases hfetch : s.run = .fetch ∨ s.run = .rotFetch
+  · obtain ⟨t, ht, hlt⟩ := reply_progress (v := .fixed) ok hfetch
+    exact ⟨.reply ok, t, by simp [Lbl.internal], ht, hlt⟩
+  by_cases hpl : s.run = .pendLock
+  · have hnr' : s.ready = false := by rw [hb.ready, hpl]; rfl
+    have h0 : s.readers = 0 := by
+      rw [hb.readers, hpl]
+      have : sumBy holdsR s.cons = 0 := sumBy_zero_of_forall _ _ (fun c hc => by
+        rcases hf.pre hnr' c hc with h | h | h <;> subst h <;> rfl)
+      simp [this, RunPc.readsR]
+    obtain ⟨t, ht, hlt⟩ := acquire_progress (v := .fixed) (Or.inl hpl) h0
+    exact ⟨.run, t, rfl, ht, hlt⟩
+  · have hrp : ∃ w, s.run = .rotPendLock w := by
+      cases hr : s.run <;> simp_all [RunPc.free, RunPc.atRest]
+    obtain ⟨w, hw⟩ := hrp
+    by_cases h0 : s.readers = 0
+    · obtain ⟨t, ht, hlt⟩ := acquire_progress (v := .fixed) (Or.inr ⟨w, hw⟩) h0
+      exact ⟨.run, t, rfl, ht, hlt⟩
+    · have hpos : 0 < sumBy holdsR s.cons := by
+        have := hb.readers; rw [hw] at this; simp [RunPc.readsR] at this; omega
+      obtain ⟨i, a, hi, ha⟩ := sumBy_pos_exists holdsR s.cons hpos
+      have hready : s.ready = true := by rw [hb.ready, hw]; rfl
+      have hen : (a = .gHold ∨ ∃ r, a = .gUnlock r) ∨
+          (s.ready = true ∧ (a = .yWait ∨ a = .gCall ∨ a = .gHoldWait)) ∨
+          (s.canRLock = true ∧ a = .gPassed) := by
+        rcases holdsR_pos_cases ha with h | h | h
+        · exact Or.inr (Or.inl ⟨hready, Or.inr (Or.inr h)⟩)
+        · exact Or.inl (Or.inl h)
+        · exact Or.inl (Or.inr h)
+      obtain ⟨t, ht, hlt⟩ := cons_progress hi hen
+      exact ⟨.cons i, t, rfl, ht, hlt⟩
+
+theorem run_to_rest (ok : Bool) : ∀ (n : Nat) (s : St), total s ≤ n → BaseInv s → FixedInv s →
+    ∃ t, IntPath .fixed ok s t ∧ t.run.atRest = true := by
+  intro n
+  induction n with
+  | zero =>
+    intro s hn hb hf
+    cases hr : s.run.atRest
+    · obtain ⟨l, t, _, _, hlt⟩ := run_progress_step ok hb hf hr
+      omega
+    · exact ⟨s, .refl s, hr⟩
+  | succ n ih =>
+    intro s hn hb hf
+    cases hr : s.run.atRest
+    · obtain ⟨l, t, hl, ht, hlt⟩ := run_progress_step ok hb hf hr
+      obtain ⟨u, hp, hu⟩ := ih t (by omega) (baseInv_step .fixed hb ht) (fixedInv_step hb hf ht)
+      exact ⟨u, .head l hl ht hp, hu⟩
+    · exact ⟨s, .refl s, hr⟩
+
+/-- pcs after a fetch has returned, up to the next rest. -/
+def RunPc.postFetch : RunPc → Bool
+  | .setSvid _ | .closeOk | .unlockOk | .rotRLock | .rotRUnlock | .rotWantLock _ | .rotPendLock _ | .rotSet _
+  | .rotUnlock | .rotWait | .closeErr | .unlockErr | .retErr => true
+  | _ => false
+
+/-- From such a pc, internal steps keep the list of successful fetches (no request is outstanding, so
+no answer can arrive) and stay among such pcs. -/
+theorem good_step {v : Variant} {ok : Bool} {s t : St} {l : Lbl} (hl : l.internal ok = true)
+    (hs : step v s l = some t) (hpf : s.run.postFetch = true) :
+    t.good = s.good ∧ t.run.postFetch = true := by
+  cases l with
+  | run =>
+    simp only [step] at hs
+    refine ⟨(runStep_frame hs).2.2.2.1, ?_⟩
+    cases hr : s.run <;> simp [RunPc.postFetch, hr] at hpf <;> simp [runStep, hr] at hs
+    all_goals first
+      | (obtain ⟨_, rfl⟩ := hs; simp [RunPc.postFetch])
+      | (subst hs; simp [RunPc.postFetch])
+  | cons i => obtain ⟨pc, b, _, rfl⟩ := consStep_shape hs; exact ⟨rfl, hpf⟩
+  | reply b =>
+    simp only [step, replyStep] at hs
+    cases hr : s.run <;> simp [RunPc.postFetch, hr] at hpf <;> simp [hr] at hs
+  | _ => simp [Lbl.internal] at hl
+
+theorem good_path {v : Variant} {ok : Bool} {s t : St} (p : IntPath v ok s t) (hpf : s.run.postFetch = true) :
+    t.good = s.good ∧ t.run.postFetch = true := by
+  induction p with
+  | refl s => exact ⟨rfl, hpf⟩
+  | head l hl hs _ ih =>
+    obtain ⟨h1, h2⟩ := good_step hl hs hpf
+    obtain ⟨h3, h4⟩ := ih h2
+    exact ⟨h3.trans h1, h4⟩
+
 /-! ### the deadlock of the code before the repair -/
 
 /-- `GetX509SVID` took the read lock and waits for `readyCh`; `Run` won the CAS, announced itself as
